@@ -46,7 +46,9 @@ CfgDims == [
   \* WithSigningAlgsFromDiscovery()).IDTokenVerifier() against a discovery document
   \* rpRefresh / rpExchange: the same relying party verifies the ID token of a refresh-grant / code-exchange response
   \* (rp.RefreshTokens, rp.CodeExchange against a token endpoint that answers with the case's tokens)
-  via    |-> {"direct", "rpOIDC", "rpRefresh", "rpExchange"},
+  \* rpOIDCslash: a relying party configured with the issuer PLUS a trailing slash, while the provider (discovery document and tokens)
+  \* states the issuer without it: another issuer string - construction fails, or nothing the provider issues is accepted
+  via    |-> {"direct", "rpOIDC", "rpRefresh", "rpExchange", "rpOIDCslash"},
   \* what the same verifier / relying party did before the observed call.  Verification is a function of the token, the access token
   \* delivered with it, the configuration and the clock - NOT of earlier calls: with "sameIDT" the very same ID token was verified
   \* immediately before, together with the access token its at_hash names (a fitting pair whenever the ID token is valid by itself),
@@ -96,6 +98,7 @@ AzpOK(t) == /\ (Cardinality(AudSet(t.aud)) > 1 => t.azp # "absent")
 AtHashOK(t) == (t.withAT /\ t.athash # "absent") => t.athash = "correct"
 
 Static(t, cfg) ==
+  /\ cfg.via # "rpOIDCslash"          \* the configured issuer is not the one the tokens name
   /\ t.iss = "ok" /\ t.sub = "present" /\ "cid" \in AudSet(t.aud) /\ AzpOK(t)
   /\ NonceOK(t, cfg) /\ AcrOK(t, cfg) /\ AtHashOK(t) /\ t.sig = "good"
 
@@ -129,7 +132,7 @@ Verdicts(c) ==
       iatO == IF cfg.maxIAT = 0 \/ t.iat = Absent THEN {"accept"} ELSE TimeCheck(t.iat <= -cfg.maxIAT - 2, t.iat >= -cfg.maxIAT + 1)
       auth == IF cfg.maxAge = 0 THEN {"accept"} ELSE IF t.auth = Absent THEN {"reject"}
               ELSE TimeCheck(t.auth <= -cfg.maxAge - 2, t.auth >= -cfg.maxAge + 1)
-      static == /\ t.sub = "present" /\ t.iss = "ok" /\ "cid" \in AudSet(t.aud) /\ AzpOK(t) /\ t.sig = "good"
+      static == /\ cfg.via # "rpOIDCslash" /\ t.sub = "present" /\ t.iss = "ok" /\ "cid" \in AudSet(t.aud) /\ AzpOK(t) /\ t.sig = "good"
                 /\ NonceOK(t, cfg) /\ AcrOK(t, cfg) /\ AtHashOK(t)
       times == {exp, iatF, iatO, auth} IN
   IF ~static THEN {"reject"}
